@@ -597,6 +597,64 @@ pub fn gen_deleg(files: &BTreeMap<String, syn::File>, out: &mut String) {
     writeln!(out, "(* impls.rs, impl_zeroize.rs, lib.rs :: the bodies of the trait impls for GenericArray that delegate to the slice *)\nDefinition gen_delegations : list (string * deleg) :=\n  [{}].", rows.join(";\n   ")).unwrap();
 }
 
+// ------------------------------------------------------------------ whole-body reinterpretations (T1)
+
+/// every function of lib.rs / impls.rs / sequence.rs whose whole body is one reinterpretation of its
+/// argument: `unsafe { crate::const_transmute(x) }` (by value, size-checked) or
+/// `unsafe { mem::transmute(x) }` (references and slices)
+pub fn gen_transmutes(files: &BTreeMap<String, syn::File>, out: &mut String) {
+    fn body_kind(b: &syn::Block) -> Option<(String, String)> {
+        let mut stmts = &b.stmts;
+        loop {
+            if stmts.len() != 1 {
+                return None;
+            }
+            match &stmts[0] {
+                syn::Stmt::Expr(syn::Expr::Unsafe(u), None) => stmts = &u.block.stmts,
+                syn::Stmt::Expr(syn::Expr::Call(c), None) => {
+                    let name = match &*c.func {
+                        syn::Expr::Path(p) => p.path.segments.last()?.ident.to_string(),
+                        _ => return None,
+                    };
+                    if (name != "const_transmute" && name != "transmute") || c.args.len() != 1 {
+                        return None;
+                    }
+                    let arg = match &c.args[0] {
+                        syn::Expr::Path(p) => p.path.get_ident()?.to_string(),
+                        _ => return None,
+                    };
+                    return Some((name, arg));
+                }
+                _ => return None,
+            }
+        }
+    }
+    let mut rows = vec![];
+    for fname in ["lib.rs", "impls.rs", "sequence.rs"] {
+        let Some(file) = files.get(fname) else { continue };
+        for it in &file.items {
+            let Item::Impl(im) = it else { continue };
+            let tr = im.trait_.as_ref().map(|t| {
+                let seg = last_seg(&t.1);
+                // keep the first generic argument when it distinguishes impls of the same trait (AsRef<[T]> / AsRef<[T; U]>)
+                let arg = seg_args(seg).first().map(|a| match a {
+                    GenericArgument::Type(Type::Array(_)) => "<[T; U]>".to_string(),
+                    GenericArgument::Type(Type::Slice(_)) => "<[T]>".to_string(),
+                    _ => String::new(),
+                });
+                format!("{}{}::", seg.ident, arg.unwrap_or_default())
+            });
+            for ii in &im.items {
+                let ImplItem::Fn(f) = ii else { continue };
+                if let Some((kind, arg)) = body_kind(&f.block) {
+                    rows.push(format!("(\"{}::{}{}\", \"{}\", \"{}\")", base_with_ref(&im.self_ty), tr.clone().unwrap_or_default(), f.sig.ident, kind, arg));
+                }
+            }
+        }
+    }
+    writeln!(out, "\n(* every function of lib.rs / impls.rs / sequence.rs whose whole body is one reinterpretation of its\n   argument: (function, const_transmute | transmute, the argument) *)\nDefinition gen_transmutes : list (String.string * String.string * String.string) :=\n  [{}]%string.", rows.join(";\n   ")).unwrap();
+}
+
 // ------------------------------------------------------------------ inverse bounds of Lengthen / Shorten (T1)
 
 /// `type Longer: Shorten<T, Shorter = Self>;` -> ("Lengthen", "Longer", "Shorten", Some "Shorter")
